@@ -103,6 +103,7 @@ class GearType(IntEnum):
     bracelet = 135400
     weapon_belt = 135401
     lara_subweapon = 135402
+    hex_seeker = 135403
 
     machine_engine = 161
     machine_arms = 162
